@@ -122,9 +122,10 @@ def recurrence_rule(rep, prog, mod, fname, pname='P', coef_arrays=('A', 'ref')):
                 continue
             stored = set()
             for b in ast.walk(loop):
-                if isinstance(b, ast.Assign) and isinstance(b.targets[0], ast.Subscript) and isinstance(b.targets[0].value, ast.Name) \
-                        and isinstance(b.value, ast.Name) and b.value.id == kname:
-                    stored.add(b.targets[0].value.id)
+                if isinstance(b, ast.Assign) and isinstance(b.value, ast.Name) and b.value.id == kname:
+                    for tg in b.targets:          # A[k] = ref[k] = temp stores into both
+                        if isinstance(tg, ast.Subscript) and isinstance(tg.value, ast.Name):
+                            stored.add(tg.value.id)
             missing = [a for a in coef_arrays if a not in stored]
             if missing:
                 rep.violation('recurrence', f.qname, construct, 'the coefficient %s used in the error update is not the one '
